@@ -44,11 +44,17 @@ static Val smallVal(Rng& r, const FSpec& fs, int cls) {
         default: return Val::in(r.chance(1, 2) ? r.range(-40, 40) : r.range(-30000, 30000)); }
 }
 
-static Table genTable(Rng& r, const World& w, const FSpec& fs, int cls, bool nowhereZero) {
+static Table genTable(Rng& r, const World& w, const FSpec& fs, int cls, bool nowhereZero, int signMode = 0, int forceShape = -1) {
     std::vector<Val> alpha; int k = r.range(2, 5);
     for (int i = 0; i < k; i++) alpha.push_back(smallVal(r, fs, cls));
+    // the neutral and absorbing elements of the operations are where the shortcuts live: make 1, -1 and 0 common values
+    if (r.chance(1, 2)) alpha[0] = fs.isReal() ? Val::re(1.0) : Val::in(1);
+    if (r.chance(1, 4)) alpha[1] = fs.isReal() ? Val::re(-1.0) : Val::in(-1);
+    if (r.chance(1, 4)) alpha.push_back(fs.isReal() ? Val::re(0.0) : Val::in(0));
+    if (signMode == 1) { for (auto& v : alpha) { if (v.k == Val::R) v.r = v.r == 0 ? 1.5 : std::fabs(v.r); else v.i = v.i == 0 ? 3 : std::labs(v.i); } }   // all stored values positive
+    if (signMode == 2) { for (auto& v : alpha) { if (v.k == Val::R) v.r = v.r == 0 ? -1.5 : -std::fabs(v.r); else v.i = v.i == 0 ? -3 : -std::labs(v.i); } }   // all negative
     if (fs.isEVP() && cls != 2) for (auto& v : alpha) if (v.i < 0 && r.chance(1, 2)) v.i = -v.i;   // EV+ mostly non-negative but negatives allowed
-    Table t = randomTable(r, w, fs, alpha);
+    Table t = randomTable(r, w, fs, alpha, forceShape);
     (void)nowhereZero;
     return t;
 }
@@ -103,7 +109,7 @@ static void run(Ctx& c) {
             bool wantZeroDiv = (op == B_DIVIDE || op == B_MODULO) && !real && r.chance(1, 5);
             bool nz = (op == B_DIVIDE || op == B_MODULO) && !wantZeroDiv;
             Table ta = genTable(r, w, P.s[size_t(fa)], cls, false);
-            Table tb = r.chance(1, 8) ? ta : genTable(r, w, P.s[size_t(fb)], cls, nz);
+            Table tb = r.chance(1, 8) ? ta : genTable(r, w, P.s[size_t(fb)], cls, nz, 0, (rel && r.chance(1, 4)) ? 6 : -1);
             if (nz) for (auto& v : tb) { if (!v.isInf() && (v.k == Val::R ? v.r == 0 : v.i == 0)) v = real ? Val::re(2.5) : Val::in(7); }
             if (op == B_MULTIPLY && !real) {   // keep |a*b| < 2^30
                 for (size_t i = 0; i < ta.size(); i++) if (!ta[i].isInf() && !tb[i].isInf() && std::labs(ta[i].i) > 1 && std::labs(tb[i].i) > 30000) tb[i].i %= 30000;
@@ -191,7 +197,8 @@ static void run(Ctx& c) {
             // ---------------- user unary ----------------
             int which = int(r.below(4));
             user_unary_factory* UF[] = {&F_affine, &F_abs, &F_sqm, &F_even};
-            Table ta = genTable(r, w, P.s[size_t(fa)], int(r.below(2)), false);
+            // one third of the cases each: every stored value positive / negative, so that an implicit 0 (default, skipped identity) is the extreme
+            Table ta = genTable(r, w, P.s[size_t(fa)], int(r.below(2)), false, int(r.below(3)), (rel && r.chance(1, 2)) ? 6 : -1);   // relations: half the tables are identity / block-diagonal patterns
             dd_edge ea(P.f[size_t(fa)]);
             buildChecked(w, P.f[size_t(fa)], P.s[size_t(fa)], ta, ea, "C05");
             int fcb = int(r.below(PB.f.size()));
